@@ -33,6 +33,7 @@ import (
 type Case struct {
 	ID    int        `json:"id"`
 	Kind  string     `json:"kind"` // xibc | agg | rv | gen_xibc | gen_agg | gen_rv
+	Origin string    `json:"origin,omitempty"` // corpus | tour | gen (informational)
 	Xibc  *XibcSpec  `json:"xibc,omitempty"`
 	Agg   *AggSpec   `json:"agg,omitempty"`
 	Rv    *RvSpec    `json:"rv,omitempty"`
@@ -162,7 +163,8 @@ func genCase(r *hlib.Rand, id int) *Case {
 
 func main() {
 	seed := flag.Uint64("seed", 1, "PRNG seed")
-	n := flag.Int("n", 50, "number of generated cases")
+	n := flag.Int("n", 50, "number of generated cases (in addition to the corpus and the directed tour)")
+	noTour := flag.Bool("notour", false, "skip the directed tour")
 	in := flag.String("in", "", "replay: file of cases (JSON lines) instead of generating")
 	out := flag.String("out", "/dev/stdout", "output file (JSON lines)")
 	only := flag.String("only", "", "generate only this kind of case")
@@ -183,15 +185,25 @@ func main() {
 		root := hlib.NewRand(*seed)
 		// the corpus of witnesses of (former) findings runs first on every check
 		for _, c := range corpus() {
-			c.ID = len(cases)
+			c.ID, c.Origin = len(cases), "corpus"
 			cases = append(cases, c)
 		}
-		for i := 0; len(cases) < *n; i++ {
+		// then the directed tour of every branch of the model (independent of the seed)
+		if !*noTour {
+			for _, c := range append(tour(), tourMore()...) {
+				c.ID, c.Origin = len(cases), "tour"
+				cases = append(cases, c)
+			}
+		}
+		// then -n generated cases
+		for i, made := 0, 0; made < *n; i++ {
 			c := genCase(root.Fork(uint64(i)), len(cases))
 			if *only != "" && c.Kind != *only {
 				continue
 			}
+			c.Origin = "gen"
 			cases = append(cases, c)
+			made++
 		}
 	}
 	w := hlib.NewOut(*out)
